@@ -779,6 +779,115 @@ fn check_e2e(ctx: &mut Ctx, c: &E2eCase) -> Outcome {
         .ok()
 }
 
+
+// ---------------------------------------------------------------------------
+// caseless matching in a fresh process
+// ---------------------------------------------------------------------------
+
+/// The find *binary*, one process per case, with a single caseless test as its whole expression:
+/// whatever the matchers set up once per process must be in force for the very first pattern,
+/// whichever shape it has (no star, one, several; with or without a bracket expression).  The
+/// pattern holds a letter pair (ss ff fi fl st) in some case; the files are named like a matching
+/// string, the same with the pair's case changed (both fnmatch-es character by character) and the
+/// same with the pair replaced by the single character that full case folding maps to it
+/// (ß ﬀ ﬁ ﬂ ﬆ - one character can never stand for two pattern characters).
+#[derive(Serialize, Deserialize, Debug, Clone)]
+pub struct FreshCase {
+    /// text pieces between the stars; the pair is appended to piece `at`
+    pub pieces: Vec<String>,
+    pub at: usize,
+    pub pair: String,
+    pub upper_in_pattern: bool,
+    pub bracket: bool,
+    /// "-iname" | "-ipath" | "-ilname"
+    pub test: String,
+}
+
+fn gen_fresh(g: &mut Gen) -> FreshCase {
+    let n = g.usize_in(1, 4);
+    let pieces: Vec<String> = (0..n).map(|_| g.pick(&["", "a", "x", "b-", "q", "é"]).to_string()).collect();
+    FreshCase { at: g.usize_in(0, n - 1), pieces, pair: g.pick(&["ss", "ff", "fi", "fl", "st"]).to_string(), upper_in_pattern: g.bool(), bracket: g.chance(1, 4), test: g.pick(&["-iname", "-iname", "-ipath", "-ilname"]).to_string() }
+}
+
+fn check_fresh(ctx: &mut Ctx, c: &FreshCase) -> Outcome {
+    use crate::engine::proc::{find_bin, BinOpts};
+    ctx.fresh_case_dir();
+    std::fs::create_dir("c/d").unwrap();
+    let single = match c.pair.as_str() {
+        "ss" => "ß",
+        "ff" => "ﬀ",
+        "fi" => "ﬁ",
+        "fl" => "ﬂ",
+        _ => "ﬆ",
+    };
+    // pattern: pieces joined by '*', the pair inside piece `at`; subject: the stars filled with "z"
+    let build = |pair: &str, star: &str| -> String {
+        let mut out = String::new();
+        for (i, p) in c.pieces.iter().enumerate() {
+            if i > 0 {
+                out.push_str(star);
+            }
+            out.push_str(p);
+            if i == c.at {
+                out.push_str(pair);
+            }
+        }
+        out
+    };
+    let pat_pair = if c.upper_in_pattern { c.pair.to_uppercase() } else { c.pair.clone() };
+    let mut pattern = build(&pat_pair, "*");
+    if c.bracket {
+        pattern.push_str("[k]");
+    }
+    let tail = if c.bracket { "k" } else { "" };
+    let same = format!("{}{tail}", build(&c.pair, "z"));
+    let other_case = format!("{}{tail}", build(&if c.upper_in_pattern { c.pair.clone() } else { c.pair.to_uppercase() }, "z"));
+    let mixed = format!("{}{tail}", build(&format!("{}{}", c.pair[..1].to_uppercase(), &c.pair[1..]), "z"));
+    let folded = format!("{}{tail}", build(single, "z"));
+    let mut want: Vec<String> = vec![];
+    let names = [&same, &other_case, &mixed, &folded];
+    for (i, n) in names.iter().enumerate() {
+        if names[..i].contains(n) {
+            continue;
+        }
+        let path = format!("c/d/f{i}");
+        let (arg, matches) = match c.test.as_str() {
+            "-ilname" => {
+                std::os::unix::fs::symlink(n.as_str(), &path).unwrap();
+                (pattern.clone(), i != 3)
+            }
+            _ => {
+                std::fs::create_dir(&path).unwrap();
+                std::fs::write(format!("{path}/{n}"), b"").unwrap();
+                (pattern.clone(), i != 3)
+            }
+        };
+        let _ = arg;
+        if matches {
+            want.push(if c.test == "-ilname" { path.clone() } else { format!("{path}/{n}") });
+        }
+    }
+    let pat_arg = if c.test == "-ipath" { format!("c/d/f?/{pattern}") } else { pattern.clone() };
+    let args: Vec<String> = vec!["c/d".into(), "-mindepth".into(), "1".into(), c.test.clone(), pat_arg.clone(), "-print0".into()];
+    let o = ctx.run_bin(&find_bin(), &args, &BinOpts { clear_env: true, ..Default::default() });
+    let mut got: Vec<String> = o.stdout.split(|b| *b == 0).filter(|s| !s.is_empty()).map(|s| lossy(s)).collect();
+    got.sort();
+    want.sort();
+    if !o.ordinary() || o.code != Some(0) || got != want {
+        let extra_folded = got.iter().any(|g| g.contains(single));
+        return fail(
+            format!("C12:caseless:fresh-process:{}:{}", if extra_folded { "multi-character-case-fold-matched-wrongly" } else { "selection-differs" }, if c.pieces.len() >= 3 { "two-or-more-stars" } else { "fewer-stars" }),
+            format!("find {args:?} (a process of its own)\nexit {:?} stderr {:?}\nexpected {want:?}\nobserved {got:?}\n(character-by-character folding: {single:?} is one character and cannot match the two pattern characters {pat_pair:?})", o.code, lossy(&o.stderr)),
+        );
+    }
+    Pass::new(true)
+        .class("caseless-fresh-process")
+        .class_if(c.pieces.len() >= 3, "fresh-process-two-or-more-stars")
+        .class_if(c.bracket, "fresh-process-with-bracket")
+        .sample(json!({"cmdline": format!("find c/d -mindepth 1 {} {:?}", c.test, pat_arg), "selected": want.len()}))
+        .ok()
+}
+
 // ---------------------------------------------------------------------------
 // tier C: which string each test is matched against
 // ---------------------------------------------------------------------------
@@ -963,6 +1072,8 @@ fn run(w: &mut Worker) {
     w.random("pairs", w.tier.pick(60_000, 1_000_000), (40, 160), 800, gen_random, check_pat);
     w.random("pairs-many-stars", w.tier.pick(12_000, 200_000), (40, 160), 60, gen_many_stars, check_pat);
     w.random("e2e", w.tier.pick(6_000, 80_000), (40, 160), 400, gen_e2e, check_e2e);
+    w.regress::<FreshCase>("caseless-fresh-process", check_fresh);
+    w.random("caseless-fresh-process", w.tier.pick(600, 10_000), (8, 20), 60, gen_fresh, check_fresh);
     w.regress::<SubjCase>("subject", check_subj);
     let mut roots: Vec<SubjCase> = vec![];
     for root in ROOTS {
@@ -982,6 +1093,8 @@ fn replay(w: &mut Worker, sub: &str, v: Value) -> Outcome {
     set_locale();
     if sub == "e2e" {
         check_e2e(&mut w.ctx, &decode(v))
+    } else if sub == "caseless-fresh-process" {
+        check_fresh(&mut w.ctx, &decode(v))
     } else if sub.starts_with("subject") {
         check_subj(&mut w.ctx, &decode(v))
     } else {
